@@ -20,6 +20,7 @@ const W_OUT_OF_ORDER: u64 = 8;
 const W_DISABLED: u64 = 16;
 const W_FAULT: u64 = 32;
 const W_QUEUE_FULL_WAIT: u64 = 64;
+const W_CANCELLED: u64 = 128;
 
 #[derive(Clone, Debug)]
 struct Req {
@@ -46,8 +47,10 @@ enum Fault {
     CutBoth,
     DropRequesterMux,
     DropResponderMux,
+    /// not a connection end: the requester abandons its first request (drops the future)
+    CancelFirstRequest,
 }
-const FAULTS: [Fault; 3] = [Fault::CutBoth, Fault::DropRequesterMux, Fault::DropResponderMux];
+const FAULTS: [Fault; 4] = [Fault::CutBoth, Fault::DropRequesterMux, Fault::DropResponderMux, Fault::CancelFirstRequest];
 
 fn req_pool() -> Vec<Req> {
     vec![
@@ -85,7 +88,9 @@ fn exec(sc: &Scn, render: bool) -> RunOutput {
     let mut wit = 0u64;
     let mut fault: Option<Fault> = None;
     let mut horizon = false;
-    let fault_kinds = [Cost::Fault; 3];
+    let fault_kinds = [Cost::Fault; 4];
+    let mut fault_taken = false;
+    let mut cancelled: Option<usize> = None;
     loop {
         if w.sim.steps >= 5000 {
             horizon = true;
@@ -93,10 +98,10 @@ fn exec(sc: &Scn, render: bool) -> RunOutput {
         }
         let en = w.sim.enabled();
         let mut kinds: Vec<Cost> = vec![Cost::Sched; en.len().max(1)];
-        if sc.faults && fault.is_none() {
+        if sc.faults && !fault_taken {
             kinds.extend_from_slice(&fault_kinds);
         }
-        if en.is_empty() && (fault.is_some() || !sc.faults) {
+        if en.is_empty() && (fault_taken || !sc.faults) {
             break;
         }
         let c = choose(&kinds);
@@ -112,8 +117,18 @@ fn exec(sc: &Scn, render: bool) -> RunOutput {
                 }
                 Fault::DropRequesterMux => w.drop_mux(0),
                 Fault::DropResponderMux => w.drop_mux(1),
+                Fault::CancelFirstRequest => {
+                    if let Some(i) = w.sim.tasks.iter().position(|t| t.name == "bindreq0.a" && !t.done) {
+                        w.sim.cancel_task(i);
+                        w.obs.borrow_mut().end("bindreq0.a");
+                        cancelled = Some(0);
+                    }
+                }
             }
-            fault = Some(f);
+            fault_taken = true;
+            if f != Fault::CancelFirstRequest {
+                fault = Some(f);
+            }
             wit |= W_FAULT;
             w.sim.log.push(Step::Extra(c - nsched));
             continue;
@@ -181,6 +196,11 @@ fn exec(sc: &Scn, render: bool) -> RunOutput {
         let fid = bind_frames.iter().find(|(_, t, p, h)| *t == r.btype && *p == r.port && *h == r.host).map(|x| x.0);
         ids.push(fid);
         let res = obs.events.iter().find_map(|e| if let Ev::BindResult { side: 0, n, res } = e { (*n == i as u32).then(|| res.clone()) } else { None });
+        if cancelled == Some(i) && res.is_none() {
+            // abandoned by the requester: no result is owed; the others must be unaffected
+            wit |= W_CANCELLED;
+            continue;
+        }
         let Some(fid) = fid else {
             if fault.is_none() {
                 push_viol(&mut viol, "bind.not-sent", format!("request {i} never appeared on the wire; result {res:?}"));
@@ -212,6 +232,9 @@ fn exec(sc: &Scn, render: bool) -> RunOutput {
             (Some(Err(e)), _, None) => push_viol(&mut viol, "bind.error-while-up", format!("request {i} failed with {e} while the connection is up")),
             (Some(Err(e)), _, Some(_)) if e != "Closed" => push_viol(&mut viol, "bind.error-kind", format!("request {i} failed with {e} instead of Closed")),
             (None, Some("never"), None) => wit |= W_NEVER_PENDING,
+            // the scripted responder collects all requests before answering; if the abandoned one never
+            // reached it, it is still waiting for it and has taken no decision yet
+            (None, None, None) if cancelled.is_some() && seen.len() < sc.reqs.len() => {}
             (None, how, None) => push_viol(&mut viol, "bind.unresolved", format!("request {i} (flow {fid:#x}) never resolved although the peer application's decision was {how:?} and the system is quiescent")),
             // the requesting futures themselves were cancelled together with their multiplexor
             (None, _, Some(Fault::DropRequesterMux)) => {}
@@ -285,7 +308,7 @@ fn exec(sc: &Scn, render: bool) -> RunOutput {
         violations: viol,
         witnesses: wit,
         horizon,
-        rendering: render.then(|| w.sim.log.iter().map(|s| match s { Step::Extra(k) => format!("FAULT({:?})", FAULTS[*k]), o => w.sim.describe(o) }).collect::<Vec<_>>().join(" ")),
+        rendering: render.then(|| w.sim.log.iter().map(|s| match s { Step::Extra(k) => format!("EVENT({:?})", FAULTS[*k]), o => w.sim.describe(o) }).collect::<Vec<_>>().join(" ")),
     };
     w.sim.teardown();
     out
@@ -323,7 +346,7 @@ pub fn run(args: &Args) -> Report {
             sc.both_sides,
             sc.faults
         );
-        cases.push(Case { label, exec: Box::new(move |r| exec(&sc, r)) });
+        cases.push(Case { try_unbounded: false, max_k: u32::MAX, label, exec: Box::new(move |r| exec(&sc, r)) });
     };
     for n in 1..=3usize {
         let total = al.len().pow(n as u32);
@@ -340,7 +363,7 @@ pub fn run(args: &Args) -> Report {
                     add(Scn { reqs: pool[..n].to_vec(), answers: answers.clone(), order: order.clone(), buf, with_traffic: n == 2 && code % 5 == 0, both_sides: thorough && n == 2 && code % 7 == 0, faults: false });
                 }
             }
-            if n <= if thorough { 2 } else { 1 } {
+            if n <= 2 {
                 add(Scn { reqs: pool[..n].to_vec(), answers: answers.clone(), order: (0..n).collect(), buf: 1, with_traffic: false, both_sides: false, faults: true });
             }
         }
@@ -353,10 +376,10 @@ pub fn run(args: &Args) -> Report {
         fault: 1,
         total_wall: Duration::from_secs(if thorough { 1500 } else { 25 }),
         max_execs_per_case: 500_000,
-        required_witnesses: W_TRUE | W_FALSE | W_NEVER_PENDING | W_OUT_OF_ORDER | W_DISABLED | W_FAULT | W_QUEUE_FULL_WAIT,
-        witness_names: &[("resolved_true", W_TRUE), ("resolved_false", W_FALSE), ("unanswered_stays_pending", W_NEVER_PENDING), ("answers_out_of_arrival_order", W_OUT_OF_ORDER), ("binds_disabled", W_DISABLED), ("connection_end_injected", W_FAULT), ("more_requests_than_bind_buffer", W_QUEUE_FULL_WAIT)],
+        required_witnesses: W_TRUE | W_FALSE | W_NEVER_PENDING | W_OUT_OF_ORDER | W_DISABLED | W_FAULT | W_QUEUE_FULL_WAIT | W_CANCELLED,
+        witness_names: &[("resolved_true", W_TRUE), ("resolved_false", W_FALSE), ("unanswered_stays_pending", W_NEVER_PENDING), ("answers_out_of_arrival_order", W_OUT_OF_ORDER), ("binds_disabled", W_DISABLED), ("connection_end_injected", W_FAULT), ("more_requests_than_bind_buffer", W_QUEUE_FULL_WAIT), ("request_abandoned_by_requester", W_CANCELLED)],
     };
-    rep.rule = "psim: requester issues 1..3 concurrent request_bind (types 1/3, hosts {1 B, empty, 255 B}, ports {0, 8080, 65535}); the responder application (bind_buffer_size 1 or 4, or binds disabled) collects the requests and answers them following EVERY answer vector over {accept, reject, drop the request, never answer} in (every / selected) permutation order; optional stream + datagram exchange alongside, optional request in the opposite direction, optional connection end (cut both, drop either Multiplexor) at every point; every schedule <= k deviations. Oracle: each request resolves at most once; true iff the peer application accepted that very flow id; false iff it rejected/dropped it or binds are disabled; unanswered requests stay pending while the connection is up; after a connection end only false/Closed; the peer application is shown exactly type/host/port/id of a Bind frame on the wire and every request; resolved requests leave no slot behind".into();
+    rep.rule = "psim: requester issues 1..3 concurrent request_bind (types 1/3, hosts {1 B, empty, 255 B}, ports {0, 8080, 65535}); the responder application (bind_buffer_size 1 or 4, or binds disabled) collects the requests and answers them following EVERY answer vector over {accept, reject, drop the request, never answer} in (every / selected) permutation order; optional stream + datagram exchange alongside, optional request in the opposite direction, optional connection end (cut both, drop either Multiplexor) or abandonment of the first request by its requester (future dropped) at every point; every schedule <= k deviations. Oracle: each request resolves at most once; true iff the peer application accepted that very flow id; false iff it rejected/dropped it or binds are disabled; unanswered requests stay pending while the connection is up; after a connection end only false/Closed; the peer application is shown exactly type/host/port/id of a Bind frame on the wire and every request; resolved requests leave no slot behind".into();
     rep.assumptions = vec!["flow ids are paired through the Bind frames seen on the wire (reference decoder)".into()];
     run_cases(args, &mut rep, cases, &plan);
     rep
